@@ -18,7 +18,8 @@ for id in "${ids[@]}"; do
   if ! git -C /repo apply "$PWD/$d/patch.diff" 2>/dev/null; then echo "$id: PATCH DOES NOT APPLY"; continue; fi
   caught=""
   for p in $props; do
-    out=$(VERIF_SCRATCH="$SCR" ./check "$p" "${TIER:-quick}" 2>&1); rc=$?
+    out=$(VERIF_SCRATCH="$SCR" timeout 1500 ./check "$p" "${TIER:-quick}" 2>&1); rc=$?
+    if [ $rc -eq 124 ]; then for q in $(pgrep -x starsim); do if tr '\0' ' ' < /proc/$q/cmdline 2>/dev/null | grep -q -- "$SCR"; then kill "$q" 2>/dev/null; fi; done; caught="$caught $p[TIMEOUT]"; continue; fi
     if [ $rc -eq 1 ]; then caught="$caught $p[$(echo "$out" | grep -m1 '^violation:' | cut -d' ' -f2)]"; fi
     if [ $rc -ge 2 ]; then caught="$caught $p[HARNESS-ERROR rc=$rc]"; fi
   done
